@@ -305,7 +305,10 @@ def write_evidence(pid, tier, seed, level, coverage, wall_s, violations=0, assum
         "coverage": coverage, "assumptions": assumptions or [],
         "wall_s": round(wall_s, 2), "violations": int(violations),
     }
-    p = os.path.join(VERIF, "evidence", pid + ".json")
+    # self-tests against mutants must not overwrite the evidence of the real tree
+    edir = os.environ.get("VERIF_EVIDENCE_DIR") or os.path.join(VERIF, "evidence")
+    os.makedirs(edir, exist_ok=True)
+    p = os.path.join(edir, pid + ".json")
     tmp = p + ".tmp"
     with open(tmp, "w") as f:
         json.dump(ev, f, indent=1, sort_keys=True, default=str)
@@ -314,7 +317,7 @@ def write_evidence(pid, tier, seed, level, coverage, wall_s, violations=0, assum
 
 
 def replay_dir():
-    d = os.path.join(VERIF, "replays")
+    d = os.path.join(os.environ.get("VERIF_EVIDENCE_DIR") or VERIF, "replays")
     os.makedirs(d, exist_ok=True)
     return d
 
